@@ -444,7 +444,7 @@ func c16AdminDelete(e *c16Env) {
 			r := ast.Unparen(as.Rhs[0])
 			var keyExpr ast.Expr
 			if e.isClientsLookup(f, r) {
-				keyExpr = r.(*ast.IndexExpr).Index
+				keyExpr = e.lookupKey(f, r)
 			} else if call, isC := r.(*ast.CallExpr); isC && c16Is(f, call, "(*"+mq+".Broker).getClient") && len(call.Args) == 1 {
 				keyExpr = call.Args[0]
 			} else {
